@@ -25,9 +25,13 @@ Disguised == {MatMul(MatMul(U(Len(d)), Diag(d)), W(Len(d))) : d \in Diags(2) \cu
 Tall(A) == IF NR(A) < 2 THEN A ELSE A \o << [j \in 1..NC(A) |-> A[1][j] + A[2][j]], [j \in 1..NC(A) |-> 2 * A[NR(A)][j]] >>
 Big == {MatMul(MatMul(U(5), Diag(d)), W(5)) : d \in {<<1,2,3,4,6>>, <<2,2,0,4,1>>, <<6,4,3,0,0>>, <<1,1,1,1,5>>, <<4,6,4,6,4>>}}
 Structured == Disguised \cup {Tall(A) : A \in Disguised} \cup {Transpose(A) : A \in {Tall(B) : B \in Disguised}} \cup Big
+\* triangular and full 2x2 matrices with entries 0..7: pivots that divide their column but not their row, with a
+\* non-trivial gcd (e.g. [[4,6],[0,5]] = <a,b | a^4 b^6, b^5> = Z/20) exercise the repeat condition of the diagonalisation
+Tri2 == {<< <<a, b>>, <<0, c>> >> : a \in 0..7, b \in 0..7, c \in 0..7} \cup {<< <<a, 0>>, <<b, c>> >> : a \in 0..7, b \in 0..7, c \in 0..7}
+Full2 == [1..2 -> [1..2 -> 0..7]]
 Case(A, how) == [ngens |-> NC(A), rows |-> A, how |-> how,
                  expected |-> IF how = "minors" THEN AbelianInvariantsByMinors(A, NC(A)) ELSE AbelianInvariants(A, NC(A))]
-Cases == {Case(A, "minors") : A \in SmallSet} \cup {Case(A, "smith") : A \in Structured}
+Cases == {Case(A, "minors") : A \in SmallSet \cup (IF Tier = 0 THEN Tri2 ELSE Full2)} \cup {Case(A, "smith") : A \in Structured}
 VARIABLE x
 Init == x = ndJsonSerialize(IOEnv.OUT, SetToSeq(Cases))
 Next == UNCHANGED x
